@@ -116,6 +116,21 @@ def verify(ctx, route, case, u, scheme, explicit, hostkind, sig):
     return not bad
 
 
+def survives(ctx, case, u, scheme, explicit, hk, sig):
+    """Operations that rebuild the authority without touching the port must keep it (0 included)."""
+    for name, fn, sch2 in (("with_user('')", lambda: u.with_user(""), scheme), ("with_user(None)", lambda: u.with_user(None), scheme), ("with_user('x')", lambda: u.with_user("x"), scheme),
+                           ("with_password('')", lambda: u.with_user("k").with_password(""), scheme), ("with_password(None)", lambda: u.with_password(None), scheme),
+                           ("with_host", lambda: u.with_host("other.example"), scheme), ("with_scheme(same)", lambda: u.with_scheme(scheme) if scheme else u, scheme),
+                           ("origin", lambda: u.origin() if scheme else u, scheme), ("with_path", lambda: u.with_path("/zz"), scheme), ("div", lambda: u / "seg", scheme)):
+        v = guarded(fn)
+        c2 = dict(case, then=name)
+        if is_exc(v):
+            ctx.ev(sig + (name, "exc"))
+            ctx.fail("valid_rejected", c2, f"{name} raised {v!r}")
+            continue
+        verify(ctx, "then-" + name, c2, v, sch2, explicit, "reg" if name == "with_host" else hk, sig + (name,))
+
+
 def expect_reject(ctx, route, case, r, kinds, sig):
     ctx.ev(sig)
     if is_exc(r):
@@ -162,6 +177,8 @@ def run(ctx):
                         ctx.fail("valid_rejected", case, f"URL({s!r}) raised {u!r}")
                     else:
                         verify(ctx, "text", case, u, scheme, p, hk, ("text",) + sig)
+                        if hk in ("reg", "ipv6") and uk in ("none", "up"):
+                            survives(ctx, case, u, scheme, p, hk, ("survives",) + sig)
                         ue = guarded(URL, s, encoded=True) if hk != "idn" else None
                         if ue is not None and not is_exc(ue):
                             verify(ctx, "text-encoded", {"route": "text-encoded", "s": s}, ue, scheme, p, hk, ("text-enc",) + sig)
@@ -174,6 +191,20 @@ def run(ctx):
                     else:
                         # build() normalises a default port away: explicit becomes None (documented: not rendered)
                         verify(ctx, "build", case, u, scheme, _build_exp(u, scheme, p), hk, ("build",) + sig)
+                    # route 2b: build() with an EMPTY (not absent) user, and with an empty password
+                    if uk == "none":
+                        for extra in ({"user": ""}, {"user": "", "password": ""}, {"user": "k", "password": ""}):
+                            kw2 = dict(scheme=scheme, host=hbuild, **extra)
+                            for enc in (False, True):
+                                if enc and hk in ("idn", "ipv6", "ipv6zone"):
+                                    continue
+                                c2 = {"route": "build", "kw": {**kw2, "port": p, "encoded": enc}}
+                                u2 = guarded(lambda: URL.build(port=p, path="/p", encoded=enc, **kw2))
+                                if is_exc(u2):
+                                    ctx.ev(("build-emptyuser",) + sig + ("exc",))
+                                    ctx.fail("valid_rejected", c2, f"build raised {u2!r}")
+                                else:
+                                    verify(ctx, "build-emptyuser", c2, u2, scheme, _build_exp(u2, scheme, p) if not enc else (p if p is None or DEFAULT.get(scheme) != p else _build_exp(u2, scheme, p)), hk, ("build-emptyuser", enc) + sig)
                     # route 3: build(authority=)
                     a = uitext + htext + (f":{p}" if p is not None else "")
                     case = {"route": "authority", "scheme": scheme, "authority": a}
